@@ -65,6 +65,12 @@ func (p *C12) Generate(seed uint64, run int) *Case {
 		b = p.w.GenInfo(r)
 	}
 	c := &Case{Property: "C12", Kind: "family", Seed: seed, Run: run}
+	if run%900 == 11 {
+		// a result above a mebibyte (a text of a few thousand items)
+		b = p.w.GenTextN(r, 2300+r.Intn(500))
+		b.Argv = []string{"text", "parse"}
+		c.Labels = append(c.Labels, "output-above-mebibyte")
+	}
 	if run%1300 == 7 {
 		// an input just above a round size (1 MiB, 4 MiB), most of it comments
 		b = padInput(r, b, p.w, []int{4 << 20, 1 << 20}[(run/1300)%2])
@@ -112,6 +118,16 @@ func (p *C12) Generate(seed uint64, run int) *Case {
 	if b.Class != "gen" && b.Class != "text" && r.Chance(1, 4) {
 		p.w.WithDict(r, &b)
 		c.Labels = append(c.Labels, "user-dictionary")
+		if cmd := CommandOf(b.Argv); (cmd == "info chord list" || cmd == "info attr list") && r.Chance(1, 3) {
+			// a listing does not have to validate what it lists; whether it does
+			// must not depend on anything but the arguments
+			if f := b.Files["/sim/chords.yml"]; f != nil {
+				cp := *f
+				cp.Data = append(append([]byte{}, f.Data...), []byte("- name: Dangling\n  meta:\n    display: dang\n  attributes:\n    - NoSuchAttribute\n- name: Orphan\n  meta:\n    display: orph\n  extends: NoSuchChord\n")...)
+				b.Files["/sim/chords.yml"] = &cp
+				c.Labels = append(c.Labels, "listing-of-inconsistent-dictionary")
+			}
+		}
 	} else if (b.Class == "doc" || b.Class == "info") && r.Chance(1, 30) {
 		// a DIRECTORY given as dictionary (the pinned tree refuses it; a tree that
 		// reads every file in it must not depend on the order the OS lists them in)
@@ -304,6 +320,13 @@ func (p *C12) Generate(seed uint64, run int) *Case {
 			st.Argv = append(st.Argv, "-o", outPath)
 			st.Files = cloneFiles(st.Files)
 			st.Files[outPath] = &simrt.FileSpec{Data: []byte("- name: Tail\n  degree: \"1\"\nTrack 9\t@0(0)\tMetaText text: tail\n" + strings.Repeat("tail of the earlier result\n", 1+r.Intn(200)))}
+		})
+	}
+	if _, big := c.HasLabel("output-above-mebibyte"); big {
+		add("outpath", func(st *Step) {
+			st.Argv = append(st.Argv, "-o", outPath)
+			st.Files = cloneFiles(st.Files)
+			st.Files[outPath] = &simrt.FileSpec{Pipe: true}
 		})
 	}
 	add("outpath", func(st *Step) {
